@@ -848,7 +848,6 @@ var dataPathPkgs = []string{"pkg/stream", "pkg/transformers", "pkg/transformers/
 // droppedOK: frozen exceptions keyed "caller → callee" with the reason.
 var droppedOK = map[string]string{
 	"(*pkg/lib.inboundHalfPipe).Close$1 → os.Process.Wait": "reaps a prepipe child whose remaining output the reader has declined (Close before end of file, e.g. mlr head): its exit status — typically broken pipe — is not an input failure; at end of file the status is checked in Read",
-	"pkg/lib.OpenOutboundHalfPipe$1 → os.Process.Wait": "reaper goroutine of an output pipe's child: a failed write to the pipe is reported by the write itself; the child's exit status is not a Miller fault",
 }
 
 // droppedOKCallee: callee-wide classes with reason.
@@ -1732,7 +1731,7 @@ func sendHelper(fn *ssa.Function) (chanIdx, valIdx int, blocking, ok bool) {
 // ---- R17.13 ------------------------------------------------------------------
 // The exit state of a child process that produces Miller's *input* is examined.
 func c17ChildExit(c *Ctx, r *Report) {
-	r.Rule("R17.13", "a failed input command is not a short input: every os.Process.Wait on a child started for reading (a function of pkg/lib that also hands out the read end of the child's pipe) uses the returned ProcessState (Success / ExitCode), on the path that ends the read")
+	r.Rule("R17.13", "a failed child command is not a success: every os.Process.Wait in pkg/lib — on a child started for reading (prepipe) or for writing (a DSL pipe redirect) — uses the returned ProcessState (Success / ExitCode); a discarded state means a failing command looks like a short input or a complete output")
 	n := 0
 	for _, fn := range c.ModuleFunctions() {
 		if fn.Pkg == nil || !strings.HasSuffix(fn.Pkg.Pkg.Path(), "/pkg/lib") {
@@ -1748,10 +1747,7 @@ func c17ChildExit(c *Ctx, r *Report) {
 				for owner.Parent() != nil {
 					owner = owner.Parent()
 				}
-				name := SSAName(owner)
-				if !strings.Contains(strings.ToLower(name), "inbound") {
-					continue
-				}
+				_ = owner
 				n++
 				used := false
 				for _, ref := range *call.Referrers() {
@@ -1767,11 +1763,11 @@ func c17ChildExit(c *Ctx, r *Report) {
 					}
 				}
 				r.Check(used, "R17.13", key, c.Rel(call.Pos()), "ProcessState examined",
-					SSAName(fn)+" waits for the input command and discards its ProcessState: a prepipe command that fails (gunzip on a damaged file, a missing program) looks like a short or empty input and mlr exits 0")
+					SSAName(fn)+" waits for a child command and discards its ProcessState: a command that fails (gunzip on a damaged file, a missing program, a failing output filter) looks like a short input or a complete output and mlr exits 0")
 			}
 		}
 	}
-	r.Floor("R17.13", "waits on input children", n, 1)
+	r.Floor("R17.13", "waits on child commands", n, 2)
 }
 
 // ---- R17.14 ------------------------------------------------------------------
